@@ -285,11 +285,11 @@ func verifyAtoms() verifySpec {
 		return T("ge25519.CofactorEqual", rp, T("ge25519.UnpackVartime", r32)).String()
 	}
 	return verifySpec{
-		decA: T("ok:ge25519.UnpackNegativeVartime", pk).String(),
-		smA:  T("smallOrder", pk).String(),
-		min:  T("scMin", s32).String(),
-		decR: T("ok:ge25519.UnpackVartime", r32).String(),
-		smR:  T("smallOrder", r32).String(),
+		decA:       T("ok:ge25519.UnpackNegativeVartime", pk).String(),
+		smA:        T("smallOrder", pk).String(),
+		min:        T("scMin", s32).String(),
+		decR:       T("ok:ge25519.UnpackVartime", r32).String(),
+		smR:        T("smallOrder", r32).String(),
 		acceptPure: accept(false), acceptDom: accept(true),
 	}
 }
